@@ -229,3 +229,4 @@ def run(ctx):
 
     _gf.representations(ctx)  # (tools/wiring.py) right-hand sides are read as projections / coefficients, solutions returned as coefficient vectors
     _c10.compat(ctx)
+    _c10.compat_use(ctx)
